@@ -119,7 +119,8 @@ def impl_outcome_coq(r):
 FUNCS = ["count", "lower", "upper", "length", "max", "min", "sum", "now", "abs", "concat", "coalesce", "generate_series",
          "substring", "nullif", "random", "md5", "unknownfn", "pg_advisory_lock", "to_char", "date_trunc", "array_agg", "plus", "round"]
 
-COLTYPES = ["int", "bigint", "text", "text NOT NULL", "int NOT NULL", "boolean", "text[]", "uuid", "timestamptz NOT NULL", "status", "numeric"]
+COLTYPES = ["int", "bigint", "text", "text NOT NULL", "int NOT NULL", "boolean", "text[]", "uuid", "timestamptz NOT NULL", "status", "numeric",
+            "int[]", "text[] NOT NULL", "status[]", "status NOT NULL"]
 TABLES = ["authors", "books", "t", "u", "orders", '"order"', '"user"', "s1.items"]
 COLNAMES = ["id", "name", "bio", "author_id", "title", "tags", "created_at", '"order"', '"select"', "status", "n", "a", "b"]
 
@@ -153,6 +154,19 @@ class Schema:
             nc = rng.choice([c for c in COLNAMES if c not in self.tables[t]] or ["zz"])
             lines.append("ALTER TABLE %s ADD COLUMN %s text;" % (t, nc))
             self.tables[t].append(nc)
+        if rng.random() < 0.12:
+            cands = [t for t in self.tables if "." not in t]
+            if cands:
+                t = rng.choice(cands)
+                lines.append("CREATE SCHEMA archive;")
+                lines.append("ALTER TABLE %s SET SCHEMA archive;" % t)
+                cols = self.tables.pop(t)
+                self.tables["archive." + t] = cols
+                for c in cols:
+                    self.types[("archive." + t, c)] = self.types.get((t, c), "text")
+                if rng.random() < 0.5:
+                    lines.append("CREATE TABLE %s (%s);" % (t, ", ".join("%s %s" % (c, self.types.get((t, c), "text").replace(" PRIMARY KEY", "")) for c in cols)))
+                    self.tables[t] = list(cols)
         self.sql = "\n".join(lines) + "\n"
 
 
@@ -331,23 +345,50 @@ class QGen:
         r = self.rng
         k = r.random()
         tabs = list(self.s.tables)
+        if k < 0.10:
+            t = r.choice(tabs)
+            cols = self.s.tables[t]
+            al = r.choice(["", "", " x"])
+            how = r.random()
+            if how < 0.35:
+                tg = "*"
+            elif how < 0.7:
+                tg = ", ".join(cols)
+            else:
+                tg = ", ".join(cols[:r.randint(1, len(cols))])
+            sql = "SELECT %s FROM %s%s" % (tg, t, al)
+            if r.random() < 0.5:
+                nm = al.strip() or (uq(t.split(".")[-1]) if not t.endswith('"') else t)
+                sql += " WHERE %s = %s" % (r.choice(cols), self.ph())
+            return sql, "select"
         if k < 0.55:
             sql, _ = self.select()
             if r.random() < 0.08:
                 sql2, _ = self.select(1, simple=True)
                 sql = "%s UNION %s%s" % (sql.split(" ORDER BY")[0].split(" LIMIT")[0].split(" OFFSET")[0], r.choice(["", "ALL "]), sql2)
             return sql, "select"
-        if k < 0.63:
-            cte, _ = self.select(1, simple=True)
+        if k < 0.66:
             nm = r.choice(["cte", "recent", "authors", "x"])
+            if r.random() < 0.6:
+                bt = r.choice(tabs)
+                bcols = r.sample(self.s.tables[bt], r.randint(1, len(self.s.tables[bt])))
+                cte = "SELECT %s FROM %s" % (r.choice(["*", ", ".join(bcols)]), bt)
+                if r.random() < 0.4:
+                    cte += " WHERE %s = %s" % (r.choice(self.s.tables[bt]), self.ph())
+                ccols = list(self.s.tables[bt]) if "*" in cte.split(" FROM ")[0] else bcols
+            else:
+                cte, _ = self.select(1, simple=True)
+                ccols = ["id", "name"]
             saved = self.s.tables
             self.s.tables = dict(saved)
-            self.s.tables[nm] = ["id", "name"]
+            self.s.tables[nm] = ccols
             main, _ = self.select(1)
             self.s.tables = saved
             return "WITH %s AS (%s) %s" % (nm, cte, main), "cte"
         t = r.choice(tabs)
         cols = self.s.tables[t]
+        if self.corrupt and r.random() < self.corrupt:
+            t = r.choice(["missing", "authorz", "s1.nosuch"])
         ret = ""
         rr = r.random()
         vis = [(uq(t.split(".")[-1]) if not t.endswith('"') else t, t)]
@@ -376,7 +417,10 @@ class QGen:
                 t2 = r.choice([x for x in tabs if x != t])
                 frm = " FROM %s" % t2
                 vis = vis + [(uq(t2.split(".")[-1]) if not t2.endswith('"') else t2, t2)]
-            sql = "UPDATE %s%s SET %s%s" % (t, r.choice(["", "", " AS z"]), sets, frm)
+            al = r.choice(["", "", " AS z"])
+            if al:
+                vis = [("z", t)] + vis[1:]
+            sql = "UPDATE %s%s SET %s%s" % (t, al, sets, frm)
             if r.random() < 0.8:
                 sql += " WHERE " + self.cond(vis)
             return sql + ret, "update"
@@ -400,7 +444,7 @@ def gen_case(rng, corrupt=0.0):
 
 def compile_jobs(cases, engine="postgresql", positional=False):
     return [{"op": "compile", "engine": engine, "schema": c["schema"], "queries": c["queries"], "want_ast": True,
-             "want_catalog": True, "funcs": FUNCS, "positional": positional} for c in cases]
+             "want_catalog": True, "want_sql_ast": True, "funcs": FUNCS, "positional": positional} for c in cases]
 
 
 def env_coq(r, engine="postgresql"):
